@@ -480,7 +480,15 @@ class Executor:
                 # bool(matrix) is True iff it has a nonzero element; unknown
                 tb = z3.Bool(self.fresh('truthy_obj%d' % v.oid))
                 return tb
-            return True
+            h = self.lib.hooks.get('truth_kind:' + o.kind) if hasattr(
+                self, 'lib') and self.lib is not None else None
+            if h is not None:
+                return h(self, st, v)
+            if o.kind == 'range':
+                return self.lib.iter_len(self, st, v).t > 0
+            if o.kind in ('closure',):
+                return True
+            raise Unsupported('truth value of a %s object' % o.kind)
         if isinstance(v, (Ext, BoundMethod)):
             return True
         if isinstance(v, Unknown):
